@@ -116,6 +116,9 @@ def run_op(pf, op, shared=None):
     if k == "slice_only":            # derive a handle, do not read through it
         sub = pf[slice(op.get("i"), op.get("j"), op.get("step"))]
         return [len(sub.row_groups), [int(rg.num_rows) for rg in sub.row_groups]]
+    if k == "slice_stats":           # metadata-only answers through a derived handle
+        sub = pf[slice(op.get("i"), op.get("j"), op.get("step"))]
+        return [len(sub.row_groups), canon(sub.statistics), sub.count(), canon(sub.info)]
     if k == "iter":
         return [df for df in pf.iter_row_groups(**_kw(op))]
     if k == "head":
@@ -523,6 +526,23 @@ class SchedTimeout(BaseException):
     pass
 
 
+def kill_threads(ts):
+    """threads of the real code that never came back (a spin, a scheduler time-out): raise SystemExit inside them
+    so that they do not keep burning the interpreter for everything that follows in this worker process"""
+    import ctypes
+    import time
+    alive = [t for t in ts if t.is_alive()]
+    for t in alive:
+        try:
+            ctypes.pythonapi.PyThreadState_SetAsyncExc(ctypes.c_ulong(t.ident), ctypes.py_object(SystemExit))
+        except Exception:           # noqa
+            pass
+    if alive:
+        end = time.time() + 3.0
+        for t in alive:
+            t.join(max(0.0, end - time.time()))
+
+
 class Sched:
     """Threads stop at every line event of fastparquet code and run only while they hold the baton.
     plan = [[tid, n, unit], ...]: thread tid runs until it has met n line events (unit "lines", the
@@ -563,6 +583,8 @@ class Sched:
 
     def on_line(self, tid, wrote=None):
         self.steps[tid] += 1
+        if self.dead:
+            raise SchedTimeout("schedule abandoned")
         if self.pos >= len(self.plan):
             return
         e = self.plan[self.pos]
@@ -630,7 +652,11 @@ def forced_run(pf, ops, plan, shared=None, timeout=30.0, root=None, opcodes=Fals
     deadline = time.time() + timeout + 5
     for t in ts:
         t.join(max(0.0, deadline - time.time()))
-    return res, list(sch.steps), sch.dead or any(t.is_alive() for t in ts)
+    dead = sch.dead or any(t.is_alive() for t in ts)
+    if dead:
+        sch.dead = True
+        kill_threads(ts)
+    return res, list(sch.steps), dead
 
 
 def count_steps(pf, op, shared=None, opcodes=False):
@@ -651,7 +677,7 @@ def count_steps(pf, op, shared=None, opcodes=False):
 # free-running threads (the exploration the property's quantifier names)
 # ---------------------------------------------------------------------------------------------
 
-def stress_run(pf, op_lists, rng, shared=None, switch=1e-6):
+def stress_run(pf, op_lists, rng, shared=None, switch=1e-6, deadline_s=None):
     """Thread i runs op_lists[i] in order on the shared handle; randomised start barriers; minimal
     interpreter switch interval.  Returns (early, late): canonical results taken right after each
     call, and again after every thread has finished (aliasing with later calls shows up there)."""
@@ -680,12 +706,14 @@ def stress_run(pf, op_lists, rng, shared=None, switch=1e-6):
     try:
         for t in ts:
             t.start()
-        deadline = time.time() + STRESS_DEADLINE       # one deadline for the whole round, not per thread
+        deadline = time.time() + (deadline_s or STRESS_DEADLINE)       # one deadline for the whole round, not per thread
         for t in ts:
             t.join(max(0.0, deadline - time.time()))
     finally:
         sys.setswitchinterval(old)
     hung = any(t.is_alive() for t in ts)
+    if hung:
+        kill_threads(ts)
     late = [[canon(r) for r in l] for l in raw]
     return early, late, hung
 
@@ -906,4 +934,144 @@ def storm_run(pf, op_a, op_b, shared=None, every=1, phase=0, timeout=40.0, max_c
     tb.start()
     tb.join(timeout * 2)
     ta.join(5.0 if not tb.is_alive() else 0.1)
-    return a_results, res_b[0], calls[0], dead[0] or ta.is_alive() or tb.is_alive()
+    isdead = dead[0] or ta.is_alive() or tb.is_alive()
+    if isdead:
+        dead[0] = True
+        stop[0] = True
+        kill_threads([ta, tb])
+    return a_results, res_b[0], calls[0], isdead
+
+
+# ---------------------------------------------------------------------------------------------
+# solo results from a pristine process
+# ---------------------------------------------------------------------------------------------
+
+class SoloServer:
+    """A process forked from this one BEFORE it has executed any operation (pristine module- and class-level
+    state of the package); for every request it forks a throw-away child that runs the operation alone on a
+    handle of its own.  So "the result the operation gives alone" cannot be contaminated by caches that
+    earlier operations of the same process left at module or class level."""
+
+    def __init__(self):
+        import pickle as pk
+        self.pk = pk
+        r1, w1 = os.pipe()          # requests
+        r2, w2 = os.pipe()          # answers
+        pid = os.fork()
+        if pid == 0:
+            try:
+                os.close(w1)
+                os.close(r2)
+                # drop every other descriptor inherited from the worker (its pipe to the parent above all: the parent
+                # must see end-of-file when the worker dies)
+                for name in os.listdir("/proc/self/fd"):
+                    fd = int(name)
+                    if fd > 2 and fd not in (r1, w2):
+                        try:
+                            os.close(fd)
+                        except OSError:
+                            pass
+                self._loop(r1, w2)
+            finally:
+                os._exit(0)
+        os.close(r1)
+        os.close(w2)
+        self.pid, self.w, self.r = pid, w1, r2
+
+    @staticmethod
+    def _send(fd, obj):
+        import pickle as pk
+        import struct
+        b = pk.dumps(obj)
+        os.write(fd, struct.pack("<I", len(b)) + b)
+
+    @staticmethod
+    def _recv(fd, timeout):
+        import pickle as pk
+        import select
+        import struct
+        import time
+        end = time.time() + timeout
+        buf = b""
+        need = None
+        while True:
+            left = end - time.time()
+            if left <= 0:
+                return None, "timeout"
+            rl, _, _ = select.select([fd], [], [], left)
+            if not rl:
+                return None, "timeout"
+            chunk = os.read(fd, 65536)
+            if not chunk:
+                return None, "eof"
+            buf += chunk
+            if need is None and len(buf) >= 4:
+                need = struct.unpack("<I", buf[:4])[0]
+            if need is not None and len(buf) >= 4 + need:
+                return pk.loads(buf[4:4 + need]), None
+
+    def _loop(self, rfd, wfd):
+        import signal
+        while True:
+            msg, err = self._recv(rfd, 10 ** 7)
+            if err:
+                return
+            path, op, shared, timeout = msg
+            r, w = os.pipe()
+            pid = os.fork()
+            if pid == 0:
+                try:
+                    os.close(r)
+                    self._send(w, solo_result(path, op, shared))
+                finally:
+                    os._exit(0)
+            os.close(w)
+            res, err = self._recv(r, timeout)
+            os.close(r)
+            if err == "timeout":
+                try:
+                    os.kill(pid, signal.SIGKILL)
+                except OSError:
+                    pass
+                res = ["EXC", "TimeoutError", "alone: operation did not return within %ds" % timeout]
+            elif err:
+                res = ["EXC", "Crash", "alone: the process running the operation died"]
+            try:
+                os.waitpid(pid, 0)
+            except OSError:
+                pass
+            self._send(wfd, res)
+
+    def ask(self, path, op, shared=None, timeout=60):
+        self._send(self.w, (path, op, shared, timeout))
+        res, err = self._recv(self.r, timeout + 30)
+        if err:
+            return ["EXC", "SoloServer", err]
+        return res
+
+    def close(self):
+        for fd in (self.w, self.r):
+            try:
+                os.close(fd)
+            except OSError:
+                pass
+        try:
+            os.waitpid(self.pid, 0)
+        except OSError:
+            pass
+
+
+SOLO_SERVER = [None]
+
+
+def start_solo_server():
+    """call in a process that has not executed any operation yet"""
+    if SOLO_SERVER[0] is None:
+        SOLO_SERVER[0] = SoloServer()
+    return SOLO_SERVER[0]
+
+
+def solo_pristine(path, op, timeout=60):
+    if SOLO_SERVER[0] is None:
+        return solo_result(path, op)
+    return SOLO_SERVER[0].ask(path, op, None, timeout)
